@@ -225,8 +225,19 @@ func (fx *fnExec) applyContract(c *Contract, callee *ssa.Function, args []Val, s
 			env2.vars[rn] = rvals[i]
 		}
 	}
-	for _, cl := range c.Ensures {
+	for i, cl := range c.Ensures {
 		t := env2.evalBool(cl)
+		// a clause with a recorded known finding is only assumed outside the failing region
+		if kf := knownFor(fmt.Sprintf("%s#post.%d", name, i+1)); kf != nil {
+			if kf.Region == "" {
+				continue
+			}
+			re, err := ParseSpecExpr(kf.Region)
+			if err != nil {
+				fail("known_findings.json: region %q: %v", kf.Region, err)
+			}
+			t = Implies(Not(env2.evalBool(Clause{Expr: re, Src: kf.Region, Line: "known_findings.json"})), t)
+		}
 		ex.assume(st, t)
 	}
 	for _, rv := range rvals {
